@@ -208,7 +208,7 @@ def _only_inside(later, old, newer):
 
 def r4_scatter(ctx):
     qn = "verde.coordinates.scatter_points"
-    K.roles_rule(ctx, "R4", [qn])
+    K.roles_rule(ctx, "R4", [qn], require={qn: [{"uniform-bounds"}, {"region-arg"}]})
     K.precedes(ctx, "R4", qn, K.is_call(CR), lambda e: e.kind == "call" and callee(e.data[0]) == ".uniform", "check_region-first", "check_region(region) precedes the draws")
     for p in ctx.paths(qn):
         if p.exit != "return":
@@ -240,7 +240,7 @@ def r4_scatter(ctx):
 
 def r5_project_region(ctx):
     qn = "verde.projections.project_region"
-    K.roles_rule(ctx, "R5", [qn])
+    K.roles_rule(ctx, "R5", [qn], require={qn: [{"projection-args"}, {"region-arg"}]})
     for p in ctx.paths(qn):
         if p.exit != "return":
             continue
